@@ -3,7 +3,11 @@ Models of the two small bit iterators of /repo/src:
 
 * `bitset_subset_iterator::BitsetSubsetIterator<T>` (Carry-Rippler): `next` returns the current subset and
   advances with `subset = subset.wrapping_sub(set) & set`, `done = (subset == 0)`.
-  `T` is an unsigned integer of `w` bits (the harness instantiates u8, u32, u64).
+  `T` is any primitive integer of `w` bits, unsigned or SIGNED (the harness instantiates u8/u16/u32/u64 and
+  i8/i16/i32/i64).  The model works on the two's-complement bit pattern (a `Nat` below `2^w`): `wrapping_sub`,
+  `&` and `== 0` act on patterns identically for both signednesses; `signedVal` converts a pattern to the value
+  a signed `T` holds.  The order of enumeration is therefore increasing in the PATTERN (for a signed mask with
+  the sign bit: first the non-negative subsets, then the negative ones).
 * `one_iterator::OneIterator` (u32): `first_bit = 31 - value.leading_zeros(); value ^= 1 << first_bit`.
   `leading_zeros` is a hardware primitive; for `value ≠ 0` it is `31 - log2 value` (its contract).
 -/
@@ -27,16 +31,19 @@ def subsetNext (w : Nat) (it : SubsetIter) : Option Nat × SubsetIter :=
     let s := wrappingSub w it.subset it.set &&& it.set
     (some temp, { it with subset := s, done := s == 0 })
 
-/-- collect until `None`; `fuel` bounds the number of `next` calls (`2^popcount(set) + 1` suffice;
-    the second component is `false` if the fuel ran out first) -/
-def subsetCollect (w : Nat) : Nat → SubsetIter → List Nat × Bool
-  | 0, _ => ([], false)
-  | fuel + 1, it =>
+/-- value held by a signed `w`-bit integer with two's-complement pattern `p` -/
+def signedVal (w p : Nat) : Int := if 2 * p ≥ 2 ^ w then (p : Int) - (2 ^ w : Nat) else p
+
+/-- collect until `None` (accumulator in reverse); `fuel` bounds the number of `next` calls
+    (`2^popcount(set) + 1` suffice; the second component is `false` if the fuel ran out first) -/
+def subsetCollectAux (w : Nat) : Nat → SubsetIter → List Nat → List Nat × Bool
+  | 0, _, acc => (acc.reverse, false)
+  | fuel + 1, it, acc =>
     match subsetNext w it with
-    | (none, _) => ([], true)
-    | (some v, it') =>
-      let (l, ok) := subsetCollect w fuel it'
-      (v :: l, ok)
+    | (none, _) => (acc.reverse, true)
+    | (some v, it') => subsetCollectAux w fuel it' (v :: acc)
+
+def subsetCollect (w : Nat) (fuel : Nat) (it : SubsetIter) : List Nat × Bool := subsetCollectAux w fuel it []
 
 /-- `OneIterator::next` -/
 def oneNext (value : Nat) : Option Nat × Nat :=
